@@ -1,6 +1,7 @@
 mod core;
 mod drive;
 mod engines;
+mod libspace;
 mod oracle;
 mod space;
 
